@@ -107,7 +107,9 @@ func c08EvictionLoop(name string) {
 	s := c08Server(name)
 	s.config.MaxMemory = 1 << 50
 	maxKeys := 2
-	if vr.Tier() > 0 {
+	if vr.Tier() > 0 && name != constants.AllKeysLRU && name != constants.VolatileLRU {
+		// (three keys under the LRU policies - symbolic access times - do not finish inside the
+		// thorough budget: measured 25 min without covering the bound; they stay at two)
 		maxKeys = 3
 	}
 	n := 1 + vr.Choose("nkeys", maxKeys)
